@@ -339,6 +339,12 @@ class FuzzStage:
                     continue
                 raise HarnessError("fuzz crash %s did not reproduce in-process; output tail: %s"
                                    % (os.path.basename(cpath), outtxt[-800:]))
+            if rc == -9 and not crashes:
+                # the campaign did not finish within the stage's wall-clock allowance (a
+                # heavily loaded machine): what it explored held; nothing more is concluded
+                ctx.labels["fuzz-budget-exhausted"] += 1
+                ctx.skipped += 1
+                return
             if rc != 0 and not crashes:
                 raise HarnessError("fuzz job %s exited %r without a crash artifact: %s" % (
                     label, rc, outtxt[-1200:]))
